@@ -74,8 +74,10 @@ def run(ctx, log):
         for x, o in zip(sj, vlib.nlh("eval", ["20000 " + vlib.hexs(x) for x in sj], tag="c05sj", profile=prof, timeout=600)):
             ctx.seen(("stray-jump", x, prof))
             ctx.count("stray-jump")
+            ctx.count("stray-jump:" + " ".join(o.split(" |")[0].split()[:2])[:14])      # rejected (and why) / ran to a value
             if not (o.startswith("OK") or o.startswith("ERR") or o.startswith("BUDGET")):
                 ctx.violate("a misplaced stop / volgende crashed the interpreter (%s build)" % prof, source=x, observed=o[:300])
+    log("stray jumps by outcome: %s" % {k: v for k, v in ctx.stats.items() if k.startswith("stray-jump:")})
     # every special value (NaN, infinities, signed zero, range ends, empty and nested things, null, functions) through every
     # operator, prefix operator, builtin and index position: a value or an error value, never a crash
     sv = progcheck.special_values_family()
